@@ -94,8 +94,9 @@ func addNamespace(ns node.Namespace, cursor *InMemory, pos int) int {
 	}
 
 	if toReplace < 0 {
+		pos++
 		cursor.namespaces = append(cursor.namespaces, createNonElement(ns, cursor, pos))
-		return pos + 1
+		return pos
 	}
 
 	nsPos := cursor.namespaces[toReplace].(*InMemory).pos
